@@ -459,16 +459,18 @@ def r02_5_emission_coverage(ctx: Ctx, rule: str = "R02.5") -> None:
                 run.fail(rule, inst, f"the emitted SELECT does not depend on {what}", fi=f, node=p.node, details=describe(p, 14))
         facts = path_facts(p)
         wheres = [c for _, c in path_calls(p) if call_attr(c) == "where"]
-        one = any(fct.kind == "EQ" and set(fct.args) == {"1", f"len({pay}.where)"} and fct.polarity for fct in facts)
-        many = has_fact(facts, "TRUTH", (f"{pay}.where",), True) and not one
-        none = has_fact(facts, "TRUTH", (f"{pay}.where",), False)
+        # the term list under any local name it was given (`terms = payload.where`)
+        wnames = {f"{pay}.where"} | {nm for nm, b in env_at(p).items() if isinstance(b, ast.Attribute) and src(b) == f"{pay}.where"}
+        one = any(fct.kind == "EQ" and fct.polarity and "1" in fct.args and any(f"len({w})" in fct.args for w in wnames) for fct in facts)
+        many = any(has_fact(facts, "TRUTH", (w,), True) for w in wnames) and not one
+        none = any(has_fact(facts, "TRUTH", (w,), False) for w in wnames)
         inst = f"emit:where:{'one' if one else 'many' if many else 'none'}"
         problem = None
         if one:
-            if len(wheres) != 1 or src(wheres[0].args[0] if wheres[0].args else None) != f"{pay}.where[0]":
+            if len(wheres) != 1 or src(wheres[0].args[0] if wheres[0].args else None) not in {f"{w}[0]" for w in wnames}:
                 problem = "a single WHERE term is not emitted as payload.where[0]"
         elif many:
-            okm = len(wheres) == 1 and wheres[0].args and isinstance(wheres[0].args[0], ast.Call) and call_attr(wheres[0].args[0]) == "and_" and [src(a) for a in wheres[0].args[0].args] == [f"*{pay}.where"]
+            okm = len(wheres) == 1 and wheres[0].args and isinstance(wheres[0].args[0], ast.Call) and call_attr(wheres[0].args[0]) == "and_" and len(wheres[0].args[0].args) == 1 and src(wheres[0].args[0].args[0]) in {f"*{w}" for w in wnames}
             if not okm:
                 problem = "several WHERE terms are not emitted as and_(*payload.where)"
         elif none and wheres:
